@@ -381,6 +381,17 @@ func vfC07Table(run *vfkit.Run, cs vfC07Case) {
 			abandoned[rg.id] = true
 		}
 	}
+	// a response to a request whose caller never read its channel has nowhere to go but the ordinary routes, once the
+	// request's context has ended (every context has, by now): it may not vanish
+	for _, rc := range recs {
+		if rc.Op.Kind == "resp" && rc.Ret != 0 && abandoned[rc.Op.Id] && !clash[rc.Op.Id] {
+			if _, ok := where[rc.Op.Serial]; !ok {
+				run.Violation("C07/response-lost:abandoned-request", fmt.Sprintf("response serial %d for id %s: the routing call returned, the caller never read the request's channel and its context has ended - the response reached neither the channel nor the ordinary routes", rc.Op.Serial, rc.Op.Id), map[string]interface{}{"case": cs, "history": recs})
+				return
+			}
+			run.Count("responses_to_abandoned_requests_accounted", 1)
+		}
+	}
 	var ops []porcupine.Operation
 	end := vfTick() + 1000
 	nresp := 0
